@@ -1,10 +1,12 @@
 """Property id -> check function(pid, tier, seed) -> exit code."""
-from . import apichecks, trie, sync
+from . import apichecks, trie, sync, conc
 
 CHECKS = {}
-for _p in ("C01", "C02", "C06", "C09", "C10", "C11", "C12"):
+for _p in ("C01", "C02", "C06", "C09", "C10", "C11", "C12", "C13", "C16", "C19"):
     CHECKS[_p] = apichecks.run_plan
 for _p in ("C05", "C07", "C08", "C18"):
     CHECKS[_p] = trie.run_plan
 for _p in ("C03", "C04", "C14", "C17"):
     CHECKS[_p] = sync.run_plan
+CHECKS["C15"] = conc.run_c15
+CHECKS["C20"] = conc.run_c20
